@@ -31,6 +31,13 @@ type c15Case struct {
 	Bodies     bool // http: @file bodies; json: inline bodies
 	Pad        int  // extra bytes per header value (long lines)
 	SharedDef  bool // the defaults also carry the targets' first header key (X-H0), in a slice with spare capacity
+	// http: targets that end without a header block follow each other without a blank line, with
+	// comment lines in between (1: at column 0, 2: indented, 3: both)
+	Compact  bool `json:",omitempty"`
+	Comments int  `json:",omitempty"`
+	// static: the targets are read eagerly (ReadAllTargets, as the attack command does by default)
+	// from a document of this format instead of being given as literals
+	Eager string `json:",omitempty"`
 }
 
 func c15Letters(i int) string {
@@ -86,7 +93,7 @@ func c15Index(t *vegeta.Target, c c15Case) (int, error) {
 	}
 	wantBody := "default-body"
 	if c.Bodies {
-		if c.Kind == "http" {
+		if c.format() == "http" {
 			wantBody = fmt.Sprintf("file-%d", idx%c15BodyFiles)
 		} else {
 			wantBody = fmt.Sprintf("body-%d", idx)
@@ -98,33 +105,34 @@ func c15Index(t *vegeta.Target, c c15Case) (int, error) {
 	return idx, nil
 }
 
-func runC15(c c15Case) error {
-	_, err := evalC15(c)
-	return err
+func (c c15Case) format() string {
+	if c.Kind == "static" {
+		return c.Eager
+	}
+	return c.Kind
 }
 
-func evalC15(c c15Case) (active int, err error) {
-	if c.Kind == "static" {
-		return evalC15Static(c)
-	}
+// c15Doc renders the targets document of a stream case (and the body files of the http format).
+func c15Doc(c c15Case) (text string, cleanup func(), err error) {
 	var doc strings.Builder
 	dir := ""
-	if c.Kind == "http" && c.Bodies {
+	cleanup = func() {}
+	if c.format() == "http" && c.Bodies {
 		d, err := os.MkdirTemp("", "c15")
 		if err != nil {
-			return 0, err
+			return "", cleanup, err
 		}
 		dir = d
-		defer os.RemoveAll(dir)
+		cleanup = func() { os.RemoveAll(dir) }
 		for i := 0; i < c15BodyFiles; i++ {
 			if err := os.WriteFile(filepath.Join(dir, fmt.Sprintf("b%d", i)), []byte(fmt.Sprintf("file-%d", i)), 0o644); err != nil {
-				return 0, err
+				return "", cleanup, err
 			}
 		}
 	}
 	pad := strings.Repeat("p", c.Pad)
 	for i := 0; i < c.Targets; i++ {
-		switch c.Kind {
+		switch c.format() {
 		case "http":
 			fmt.Fprintf(&doc, "%s http://c15.test/t/%d\n", c15Letters(i), i)
 			for h := 0; h < c.Headers; h++ {
@@ -133,7 +141,15 @@ func evalC15(c c15Case) (active int, err error) {
 			if c.Bodies {
 				fmt.Fprintf(&doc, "@%s\n", filepath.Join(dir, fmt.Sprintf("b%d", i%c15BodyFiles)))
 			}
-			doc.WriteString("\n")
+			if !(c.Compact && (c.Headers == 0 || c.Bodies)) {
+				doc.WriteString("\n")
+			}
+			if c.Comments&1 != 0 && i%3 == 0 {
+				fmt.Fprintf(&doc, "# after target %d\n", i)
+			}
+			if c.Comments&2 != 0 && i%2 == 0 {
+				fmt.Fprintf(&doc, "%s# GET http://c15.test/commented/%d\n", []string{" ", "\t", "    "}[i%3], i)
+			}
 		case "json":
 			fmt.Fprintf(&doc, `{"method":"%s","url":"http://c15.test/t/%d"`, c15Letters(i), i)
 			if c.Headers > 0 {
@@ -152,6 +168,10 @@ func evalC15(c c15Case) (active int, err error) {
 			doc.WriteString("}\n")
 		}
 	}
+	return doc.String(), cleanup, nil
+}
+
+func c15Defaults(c c15Case) http.Header {
 	defHdr := http.Header{"X-Default": []string{"d"}}
 	if c.SharedDef { // built like three -header flags: append leaves spare capacity
 		var vs []string
@@ -160,11 +180,29 @@ func evalC15(c c15Case) (active int, err error) {
 		}
 		defHdr["X-H0"] = vs
 	}
+	return defHdr
+}
+
+func runC15(c c15Case) error {
+	_, err := evalC15(c)
+	return err
+}
+
+func evalC15(c c15Case) (active int, err error) {
+	if c.Kind == "static" {
+		return evalC15Static(c)
+	}
+	text, cleanup, err := c15Doc(c)
+	defer cleanup()
+	if err != nil {
+		return 0, err
+	}
+	defHdr := c15Defaults(c)
 	var tr vegeta.Targeter
 	if c.Kind == "http" {
-		tr = vegeta.NewHTTPTargeter(strings.NewReader(doc.String()), []byte("default-body"), defHdr)
+		tr = vegeta.NewHTTPTargeter(strings.NewReader(text), []byte("default-body"), defHdr)
 	} else {
-		tr = vegeta.NewJSONTargeter(strings.NewReader(doc.String()), []byte("default-body"), defHdr)
+		tr = vegeta.NewJSONTargeter(strings.NewReader(text), []byte("default-body"), defHdr)
 	}
 	type out struct {
 		got  []int
@@ -250,6 +288,23 @@ func evalC15Static(c c15Case) (active int, err error) {
 		tgts[i] = vegeta.Target{Method: c15Letters(i), URL: fmt.Sprintf("http://c15.test/t/%d", i), Body: []byte(fmt.Sprintf("body-%d", i)),
 			Header: http.Header{"X-I": []string{fmt.Sprint(i)}}}
 	}
+	if c.Eager != "" {
+		text, cleanup, err := c15Doc(c)
+		defer cleanup()
+		if err != nil {
+			return 0, err
+		}
+		src := vegeta.NewJSONTargeter(strings.NewReader(text), []byte("default-body"), c15Defaults(c))
+		if c.Eager == "http" {
+			src = vegeta.NewHTTPTargeter(strings.NewReader(text), []byte("default-body"), c15Defaults(c))
+		}
+		if tgts, err = vegeta.ReadAllTargets(src); err != nil {
+			return 0, fmt.Errorf("ReadAllTargets on a well-formed %s document of %d targets: %v", c.Eager, c.Targets, err)
+		}
+		if len(tgts) != c.Targets {
+			return 0, fmt.Errorf("ReadAllTargets on a %s document of %d targets returned %d", c.Eager, c.Targets, len(tgts))
+		}
+	}
 	tr := vegeta.NewStaticTargeter(tgts...)
 	counts := make([][]int, c.Goroutines)
 	errs := make([]error, c.Goroutines)
@@ -274,7 +329,13 @@ func evalC15Static(c c15Case) (active int, err error) {
 					return
 				}
 				var idx int
-				if _, err := fmt.Sscanf(t.URL, "http://c15.test/t/%d", &idx); err != nil || idx < 0 || idx >= c.Targets ||
+				if c.Eager != "" {
+					var cerr error
+					if idx, cerr = c15Index(&t, c); cerr != nil || idx < 0 || idx >= c.Targets {
+						errs[g] = fmt.Errorf("static targeter over %d targets read eagerly from a %s document: %v", c.Targets, c.Eager, cerr)
+						return
+					}
+				} else if _, err := fmt.Sscanf(t.URL, "http://c15.test/t/%d", &idx); err != nil || idx < 0 || idx >= c.Targets ||
 					t.Method != c15Letters(idx) || string(t.Body) != fmt.Sprintf("body-%d", idx) || t.Header.Get("X-I") != fmt.Sprint(idx) {
 					errs[g] = fmt.Errorf("static targeter returned a torn target %+v", t)
 					return
@@ -325,11 +386,21 @@ func TestC15Concurrent(t *testing.T) {
 			if rapid.Bool().Draw(t, "many") {
 				c.Draws = rapid.IntRange(10000, 200000).Draw(t, "n2")
 			}
+			if rapid.Bool().Draw(t, "eager") {
+				c.Eager = rapid.SampledFrom([]string{"http", "json"}).Draw(t, "eagerfmt")
+				c.Headers = rapid.IntRange(0, 4).Draw(t, "headers")
+				c.Bodies = rapid.Bool().Draw(t, "bodies")
+				c.SharedDef = rapid.Bool().Draw(t, "shareddef")
+			}
 		} else {
 			c.Targets = int(math.Exp(rapid.Float64Range(0, math.Log(5000)).Draw(t, "logn")))
 			c.Headers = rapid.IntRange(0, 4).Draw(t, "headers")
 			c.Bodies = rapid.Bool().Draw(t, "bodies")
 			c.SharedDef = rapid.Bool().Draw(t, "shareddef")
+			if c.Kind == "http" {
+				c.Compact = rapid.Bool().Draw(t, "compact")
+				c.Comments = rapid.IntRange(0, 3).Draw(t, "comments")
+			}
 			if rapid.IntRange(0, 4).Draw(t, "padded") == 0 {
 				c.Pad = rapid.SampledFrom([]int{100, 1000, 4100}).Draw(t, "pad")
 				if c.Pad*c.Headers*c.Targets > 4<<20 {
